@@ -238,6 +238,7 @@ def is_intarr(t):
 LINEAR_ELEMENTWISE = ('idx', 'slice')
 HOMOGENEOUS_CALLS = {'diff', 'mean', 'sum', 'median', 'nanmean'}     # f(k*x) == k*f(x)
 EVEN_HOMOGENEOUS_CALLS = {'amp_by_time', 'abs'}                       # f(k*x) == |k|*f(x)
+SIGN_INVARIANT_CALLS = {'detect_bursts_dual_threshold'}                # f(-x) == f(x): thresholds on the analytic amplitude
 SIGN_SWAP_CALLS = {'argmax': 'argmin', 'argmin': 'argmax', 'max': 'min', 'min': 'max',
                    'nanmax': 'nanmin', 'nanmin': 'nanmax'}
 
@@ -474,6 +475,12 @@ def gamma(c, a, b):
         return a
     if c[0] == 'not':
         return gamma(c[1], b, a)
+    if a[0] == 'gamma' and a[1] == c:
+        a = a[2]
+    if b[0] == 'gamma' and b[1] == c:
+        b = b[3]
+    if a == b:
+        return a
     # "nan if all the candidates are nan else nanmin(some of them)"  ==  nanmin(some of them)
     if a == NAN and c[0] == 'call' and c[1] == 'all' and len(c[2]) == 1 and c[2][0][0] == 'call' and c[2][0][1] == 'isnan' \
             and b[0] == 'call' and b[1] in ('nanmin', 'nanmax') and len(b[2]) == 1 and b[2][0][0] == 'tuple' \
@@ -542,6 +549,9 @@ def call(name, args, kwargs=()):
         (x, k), = args[0][2]
         inner = ('call', name, (x,) + args[1:], kwargs)
         return inner if abs(Fraction(k)) == 1 else lin(0, [(inner, abs(Fraction(k)))])
+    if name in SIGN_INVARIANT_CALLS and len(args) >= 1 and args[0][0] == 'lin' and args[0][1] == 0 and len(args[0][2]) == 1 \
+            and args[0][2][0][1] == -1:
+        return ('call', name, (args[0][2][0][0],) + args[1:], kwargs)
     if name == 'append' and len(args) == 2 and args[1][0] == 'slice' and args[1][2:] == (('const', 1), NONE, NONE) \
             and args[0] == ('idx', args[1][1], ('const', 0)):
         return args[1][1]
@@ -716,6 +726,12 @@ def show(t, depth=0):
         return f"arr<{show(t[1])}; " + '; '.join(f'[{show(i)}] <- {show(v)}' + ('' if g == TRUE else f' if {show(g)}') for i, v, g in t[2]) + '>'
     if tag == 'map':
         return f'map<{_keyname(t[1])}: {show(t[2])}>'
+    if tag == 'filtermap':
+        return f'map<{_keyname(t[1])} if {show(t[2])}: {show(t[3])}>'
+    if tag == 'loopout':
+        return f'loop<{_keyname(t[1])}; init {show(t[2])}; step {show(t[3])}' + ('' if t[4] == FALSE else f'; break if {show(t[4])}') + '>'
+    if tag == 'carried':
+        return f'@acc{t[1]}'
     if tag == 'first':
         return f'first<{_keyname(t[1])} if {show(t[2])}: {show(t[3])}>'
     if tag == 'opaque':
@@ -728,6 +744,8 @@ def show(t, depth=0):
 def _keyname(k):
     if isinstance(k, tuple) and k and k[0] == 'range':
         return f'range({show(k[1])},{show(k[2])})'
+    if isinstance(k, tuple) and k and k[0] == 'over' and isinstance(k[1], tuple) and k[1] and k[1][0] in ('map', 'filtermap'):
+        return f'over({show(k[1])})'
     if isinstance(k, tuple) and k and k[0] in ('over', 'rows', 'items', 'keysof'):
         return f'{k[0]}({show(k[1]) if isinstance(k[1], tuple) else k[1]})'
     if isinstance(k, tuple) and k and k[0] in ('zip', 'product', 'nest'):
